@@ -23,6 +23,7 @@ Inductive instr :=
 | ICopyAToB | ICopyAToC | ICopyAToD | ICopyCToB | ICopyDToA | ICopyDToB
 | IBin (op : bop) | INot | INegate
 | ICast (q : qual)
+| IAlloc (q : qual)            (* AllocateBuiltIn *)
 | ILabel (l : label)
 | IJump (t : target) | IJumpIfFalse (t : target)
 | IPushRegisters | IPopRegisters
@@ -44,3 +45,61 @@ Definition label_eqb (a b : label) : bool :=
   let '(ka, ia, ja, (ra, ca)) := a in
   let '(kb, ib, jb, (rb, cb)) := b in
   Nat.eqb (lkind_index ka) (lkind_index kb) && Nat.eqb ia ib && Nat.eqb ja jb && Nat.eqb ra rb && Nat.eqb ca cb.
+
+(** ** boolean equality of instruction lists (for the literal comparison with the real generator) *)
+Fixpoint bytes_eqb' (a b : list Z) : bool :=
+  match a, b with
+  | [], [] => true
+  | x :: a', y :: b' => Z.eqb x y && bytes_eqb' a' b'
+  | _, _ => false
+  end.
+Definition name_eqb_exact (a b : name) : bool := bytes_eqb' (fst a) (fst b) && qual_eqb (snd a) (snd b).
+
+Definition target_eqb (a b : target) : bool :=
+  match a, b with
+  | TAddr x, TAddr y => Nat.eqb x y
+  | TLabel x, TLabel y => label_eqb x y
+  | _, _ => false
+  end.
+
+Definition instr_eqb (a b : instr) : bool :=
+  match a, b with
+  | ILoad x, ILoad y => variant_eqb x y
+  | IVarPathName x, IVarPathName y => name_eqb_exact x y
+  | ICopyVarPathToA, ICopyVarPathToA | IPopVarPath, IPopVarPath | ICopyAToVarPath, ICopyAToVarPath
+  | IPushA, IPushA | IPopA, IPopA | ICopyAToB, ICopyAToB | ICopyAToC, ICopyAToC | ICopyAToD, ICopyAToD
+  | ICopyCToB, ICopyCToB | ICopyDToA, ICopyDToA | ICopyDToB, ICopyDToB | INot, INot | INegate, INegate
+  | IPushRegisters, IPushRegisters | IPopRegisters, IPopRegisters | IThrowZeroStep, IThrowZeroStep
+  | IHalt, IHalt | IPrintSetPrinterType, IPrintSetPrinterType | IPrintSetFormat, IPrintSetFormat
+  | IPrintComma, IPrintComma | IPrintSemi, IPrintSemi | IPrintValue, IPrintValue | IPrintEnd, IPrintEnd => true
+  | IBin x, IBin y => bop_eqb x y
+  | ICast x, ICast y | IAlloc x, IAlloc y => qual_eqb x y
+  | ILabel x, ILabel y => label_eqb x y
+  | IJump x, IJump y | IJumpIfFalse x, IJumpIfFalse y => target_eqb x y
+  | _, _ => false
+  end.
+
+Definition ipos_eqb (a b : ipos) : bool :=
+  instr_eqb (fst a) (fst b) && Nat.eqb (fst (snd a)) (fst (snd b)) && Nat.eqb (snd (snd a)) (snd (snd b)).
+
+Fixpoint code_eqb (a b : list ipos) : bool :=
+  match a, b with
+  | [], [] => true
+  | x :: a', y :: b' => ipos_eqb x y && code_eqb a' b'
+  | _, _ => false
+  end.
+
+(** index of the first difference (for the replay) *)
+Fixpoint code_diff (a b : list ipos) (i : nat) : option nat :=
+  match a, b with
+  | [], [] => None
+  | x :: a', y :: b' => if ipos_eqb x y then code_diff a' b' (S i) else Some i
+  | _, _ => Some i
+  end.
+
+Fixpoint nats_eqb (a b : list nat) : bool :=
+  match a, b with
+  | [], [] => true
+  | x :: a', y :: b' => Nat.eqb x y && nats_eqb a' b'
+  | _, _ => false
+  end.
